@@ -955,8 +955,58 @@ def rule_fixed_route_cleared(chk, prog):
     (r.bad if bad else r.ok)("clearFixedRoute re-queues the end points", fn.where(), bad or "")
 
 
+def rule_bounding_box(chk, prog):
+    from ..microai.interp import Interp, Vec, Oracle, Unsupported, AssertFail, default_obj
+    from fractions import Fraction as F
+    r = chk.rule("BOUNDING-BOX-ENCLOSES", "PolygonInterface::offsetBoundingBox interpreted on polygons whose vertex ORDER makes one vertex a new extreme in x "
+                 "and in y at once (a triangle, a hexagon listed from an inner vertex, a rectangle, a single point): the box is exactly "
+                 "[min x - offset, max x + offset] x [min y - offset, max y + offset] -- orthogonal routing treats this box, not the polygon, "
+                 "as the obstacle, so a box that loses an extreme lets routes through the shape", floor=4)
+    fn = prog.fn("Avoid::PolygonInterface::offsetBoundingBox")
+    cases = [("triangle", [(100, 100), (-100, 200), (0, 0)]), ("hexagon listed from an inner vertex", [(0, 50), (40, 90), (90, 100), (130, 40), (90, -20), (30, -10)]),
+             ("rectangle", [(0, 0), (10, 0), (10, 5), (0, 5)]), ("single point", [(3, 4)]), ("descending diagonal", [(5, 5), (4, 4), (6, 6), (3, 7)])]
+    for name, pts in cases:
+        for off in (F(0), F(2)):
+            r.count()
+            poly = default_obj(prog, "Avoid::Polygon", {"ps": Vec([default_obj(prog, "Avoid::Point", {"x": F(x), "y": F(y)}) for x, y in pts], "Avoid::Point")})
+            it = Interp(prog, Oracle([]))
+            bad = None
+            try:
+                b = it.call(fn, poly, None, None, arg_values=[off])
+            except Unsupported as e:
+                raise AnalysisBroken("offsetBoundingBox outside the interpreter subset: %s" % e)
+            except AssertFail as e:
+                bad = "assertion fails: %s" % e
+            if not bad:
+                got = (F(b.f["min"].f["x"]), F(b.f["min"].f["y"]), F(b.f["max"].f["x"]), F(b.f["max"].f["y"]))
+                want = (min(x for x, y in pts) - off, min(y for x, y in pts) - off, max(x for x, y in pts) + off, max(y for x, y in pts) + off)
+                if got != want:
+                    bad = "box (%s, %s)-(%s, %s), the polygon reaches (%s, %s)-(%s, %s)" % tuple(str(v) for v in got + want)
+            (r.bad if bad else r.ok)("%s, offset %s" % (name, off), fn.where(), bad or "")
+
+
+def rule_naive_visibility_covers(chk, prog):
+    r = chk.rule("NAIVE-VISIBILITY-COVERS-ALL", "Obstacle::computeVisibilityNaive (UseLeesAlgorithm = false) tests every corner of the shape against every "
+                 "other vertex of the router -- connector end points included: they compute their own visibility only when THEY are set, so "
+                 "a shape added or moved later gets its edges to the existing end points here or never; the only vertices either loop may "
+                 "skip are those whose id equals a constant (the orthogonal dummy id)", floor=2)
+    fn = prog.fn("Avoid::Obstacle::computeVisibilityNaive")
+    cs_ = [c for c in calls(fn) if (c.get("cname") or "").endswith("EdgeInf::checkEdgeVisibility")]
+    if len(cs_) < 2:
+        raise AnalysisBroken("computeVisibilityNaive: the two checkEdgeVisibility loops were not found")
+    for c in cs_:
+        r.count()
+        loops = [a for a in fn.ancestors(c) if a.get("k") in ("ForStmt", "WhileStmt")]
+        conds = {norm(l_.get("cond")) for l_ in loops if l_.get("cond") is not None}
+        extra = [a for a in atoms(path_condition(fn, c, inline=False, early=True)) if a not in conds and not re.match(r"^\(\w+\.id == [\w:]+\)$", a)]
+        (r.bad if extra else r.ok)("checkEdgeVisibility at line %s" % c.get("l"), fn.loc(c), "" if not extra else
+                                   "vertices are left out under %s: a later shape never gets edges to them" % sorted(extra))
+
+
 def run(chk):
     prog = chk.load()
+    chk.guard(rule_bounding_box, chk, prog)
+    chk.guard(rule_naive_visibility_covers, chk, prog)
     chk.guard(rule_fixed_route_cleared, chk, prog)
     chk.guard(rule_hyperedge_segments_all, chk, prog)
     chk.guard(rule_hyperedge_foreign_points, chk, prog)
